@@ -11,4 +11,5 @@ McMenuS == {<<>>, <<"t">>, <<"t2">>, <<"b">>, <<"bb">>, <<"t", "t">>, <<"b", "t"
 McMenuW == {<<>>, <<"t">>, <<"b">>}
 McTimesW == {30, 60, 1830, 1860}
 McMenuV == {<<>>, <<"t">>}
+McTimesV == {30, 1830}
 ====
